@@ -268,6 +268,62 @@ def run(tier, seed):
                                   "oracle": "FAIL the period went on after %s was assigned a value falsifying the activation condition (at %s)" % (c[2][2], late[:3]),
                                   "shape": "chained-condition", "open_at_end": False})
         rep.sample({"config": text, "events": len(evs), "markers": {m["name"]: ",".join(markers(im["stream"], m["name"])) for m in cfg["members"]}}, cap=3)
+    # ---- O-C02d: period independence, directly (metamorphic, on the real loop) -----------------------------------
+    # an auditor whose condition reads the mood only and whose predicate reads signals only: take a period that
+    # starts at a mood change P; whatever was sampled BEFORE P must not influence what is reported from P on.
+    # Variant 1 shifts every earlier sample by +10, variant 2 sets every earlier sample to the value of the
+    # first sample of that signal inside the period (so that "same value as before" differs between the runs).
+    indep = []
+    n_indep = 0
+    for cfg, evs in cases:
+        if n_indep >= (150 if tier == "quick" else 2500):
+            break
+        for m in cfg["members"]:
+            c = m["cond"]
+            if not (m["expect"] and c[0] == "bin" and c[1] in ("eq", "ne") and c[2] == g.var("mood") and c[3][0] == "str"):
+                continue
+            pdeps = g.deps(m["expect"][1])
+            if not pdeps or not all(a for a, _ in pdeps):
+                continue
+            holds = lambda md: (md == c[3][1]) == (c[1] == "eq")
+            mood, starts = "clear", []
+            for e in evs:
+                if e[0] == "mood":
+                    if holds(e[2]) and not holds(mood):
+                        starts.append(e[1])
+                    mood = e[2]
+            starts = [P for P in starts if any(e[0] == "sig" and e[1] < P for e in evs) and any(e[0] == "sig" and e[1] > P for e in evs)]
+            if not starts:
+                continue
+            P = starts[len(starts) // 2]
+            first_in = {}
+            for e in evs:
+                if e[0] == "sig" and e[1] > P:
+                    for (k_, a_, s_, v_) in e[2]:
+                        first_in.setdefault((a_, s_), v_)
+            def variant(fn):
+                return [(e[0], e[1], [(k_, a_, s_, fn(a_, s_, v_)) for (k_, a_, s_, v_) in e[2]]) if e[0] == "sig" and e[1] < P else e for e in evs]
+            text = g.config_text(cfg)
+            base = None
+            for vname, fn in (("as generated", lambda a_, s_, v_: v_), ("earlier samples + 10", lambda a_, s_, v_: v_ + 10),
+                              ("earlier samples = first sample of the period", lambda a_, s_, v_: first_in.get((a_, s_), v_))):
+                ev2 = variant(fn)
+                r2 = impl.call("audition", Args={"Parse": {"Text": text}, "Events": g.events_json(ev2), "EpochOffset": float(TEND)})
+                if r2.get("Panicked") or r2.get("harnessCrash") or r2.get("Err"):
+                    base = None
+                    break
+                reps = [(round(float(it[1]), 6) if float(it[1]) < TEND else "end", it[3]) for it in g.parse_impl(r2)["stream"] if it[0] == "rep" and it[2] == m["name"] and float(it[1]) >= float(P) - 1e-9]
+                if base is None:
+                    base = reps
+                elif reps != base:
+                    indep.append({"config": text, "events": g.events_json(evs), "auditor": m["name"], "period_starts_at": float(P), "variant": vname,
+                                  "reports_from_the_period_on": base[:12], "reports_with_the_variant": reps[:12], "variant_events": g.events_json(ev2),
+                                  "oracle": "FAIL the reports of a period depend on samples taken before the period"})
+                    break
+            if base is not None:
+                n_indep += 1
+                rep.count("period-independence cases (mood-based condition, signal-only predicate)")
+            break
     # ---- probe: the round in which the condition is found false (the closing round of a period) ------------------
     # `m0 audits only while mood == 'blue'` / `m0 expects always: mood == 'blue'`: whenever the condition holds the
     # predicate holds, so no observation made IN a period disappoints.  The real loop (and the model, which mirrors it)
@@ -286,11 +342,15 @@ def run(tier, seed):
                             "oracle": "FAIL an observation made in the round where the activation condition turned false was judged (disappointment) although the predicate holds whenever the condition does"})
     rep.obligation("K-C02: real audit loop vs model on the start/report/stop stream (%d histories)" % len(cases), "K", not kdis, json.dumps(kdis[:2])[:1800])
     rep.obligation("O-C02: periods bracketed, explainable from a fresh start, closed at the end (real stream)", "O", not ofail, json.dumps(ofail[:2])[:1800])
+    rep.obligation("O-C02d: what is reported from the start of a period on does not depend on the samples taken before it (%d histories, each replayed with two altered prefixes on the real loop)" % n_indep,
+                   "O", not indep, json.dumps(indep[:1])[:1800])
     closing_known = bool(closing) and rep.match_known({"kind": "closing-round-judged"}) is not None
     rep.obligation("O-C02c: nothing observed in a period's closing round is judged%s" % (" — the probe of the known finding excepted (it fails as recorded)" if closing_known else ""),
                    "O", (not closing) or closing_known, json.dumps(closing[:1])[:900])
     if closing:
         rep.violation("auditor m0: %s" % closing[0]["oracle"], closing[0], tags={"kind": "closing-round-judged"})
+    if indep:
+        rep.violation("auditor %s: %s" % (indep[0]["auditor"], indep[0]["oracle"]), dict(indep[0], failing_inputs=len(indep)), tags={"kind": "period-depends-on-earlier-samples"})
     if ofail:
         seen = set()
         for f in ofail:
@@ -300,7 +360,7 @@ def run(tier, seed):
                 continue
             seen.add(k)
             rep.violation("auditor %s: marker stream %s violates the period specification (%s)" % (f["auditor"], f["markers"], f["oracle"]), f, tags=tag)
-    else:
+    elif not indep:
         if not ok:
             rep.violation("proof obligations of C02 no longer check", {"broken_theorems": info["failed"], "lean_output": info["output"][-3000:]}, nofail=True)
         elif kdis:
